@@ -352,7 +352,7 @@ Theorem cd_oracle_sound nfkd dt v out :
   format_content_disposition true nfkd dt v = Ok out -> cd_out_ok dt v out = true.
 Proof.
   intros D Hn H. destruct (is_ascii v) eqn:A.
-  - exact (cd_oracle_sound_ascii_partial nfkd dt v out D A H).
+  - exact (cd_oracle_sound_ascii nfkd dt v out D A H).
   - specialize (Hn eq_refl). unfold cd_out_ok.
     rewrite (content_disposition_ascii _ _ _ _ _ D H). cbn [andb].
     unfold format_content_disposition in H. rewrite A in H. unfold bind in H.
